@@ -314,12 +314,17 @@ def check_cli(cr, ctx):
 
     contracts.attach(p2a, "write_chr_csv_files", on_call=on_call, label="C10.write_chr_csv_files")
     ctx.case()
+    if cr.get("rerun_over_longer_files"):
+        # the output directory holds the (longer) files of an earlier run under the same names; overwriting is the default
+        first = cli_runs.run_pretext_to_asm(cr, out_name="out.agp")
+        if first["exit_code"] == 0 and cli_runs.inflate_outputs(cr):
+            ctx.count("cli:rerun-over-longer-files")
     CSV_SNAP.clear()
     res = cli_runs.run_pretext_to_asm(cr, out_name="out.agp")
     if res["exit_code"] != 0 or len(CSV_SNAP) != 1:
         ctx.count("cli:error-exit")
         return
-    case = cli_runs.case_of(cr)
+    case = cli_runs.case_of(cr, {"rerun_over_longer_files": bool(cr.get("rerun_over_longer_files"))})
     ctx.nontrivial(case["files"])
     files = cli_runs.output_files(cr)
     seen_uncurated = False
@@ -373,6 +378,7 @@ def run_cli(shard, ctx):
             cr = cli_runs.text_case(rng, base / f"c{i}", fmt="agp", tagged=True, two_hap=True, primary=False)
         else:
             cr = cli_runs.text_case(rng, base / f"c{i}", fmt="agp", tagged=True, two_hap=True, unprefixed=True, primary=True)
+        cr["rerun_over_longer_files"] = i % 4 == 1
         try:
             check_cli(cr, ctx)
         finally:
@@ -392,7 +398,9 @@ def replay(case, ctx):
 
         from vf import cli_runs
 
-        return check_cli(cli_runs.restore_case(case, Path(os.environ.get("VERIF_SHARD_SCRATCH", ".")) / "replay"), ctx)
+        cr_ = cli_runs.restore_case(case, Path(os.environ.get("VERIF_SHARD_SCRATCH", ".")) / "replay")
+        cr_["rerun_over_longer_files"] = case.get("rerun_over_longer_files")
+        return check_cli(cr_, ctx)
     oracle(case, workloads.run_case(case), ctx)
 
 
@@ -409,6 +417,7 @@ def gates(c, tier):
         "naming-ok:tag": 1500,
         "second-call:compared": 1000,
         "cli:chromosome-lists-expected": 100,
+        "cli:rerun-over-longer-files": 30,
         "cli:chromosome-list-expected-after-a-set-aside-assembly": 10,
         "naming-ok:tag2": 400,
         "autosomes:numbered": 3000,
